@@ -332,6 +332,32 @@ theorem C15_full : C15_statement :=
   ⟨C15_battery_total, C15_battery_sum, C15_battery_failed_power, C15_battery_sets, C15_battery_succeeded_is_sum,
    C15_pv_allocation, C15_pv_total, C15_pv_sum, C15_pv_powers, C15_pv_sets⟩
 
+/-! ## Concurrent requests (one manager serves requests for different component sets at the same time) -/
+
+/-- A result is a function of its own request and of the outcomes of its own calls only: whatever other
+requests are in flight in the same manager (any number, any powers, any interleaving of their calls with this
+request's awaits), the calls made and the result are those of the request served alone — so every clause
+above holds for every result of a concurrent run.  Batteries: the per-request code of `BatteryManager` writes
+no instance attribute at all (and `batResult` reads none).  PV: `pvDistributeAmong others` reads the instance
+state as the calls of `others` left it (`sharedAfter` of the attributes the source writes per request). -/
+def C15_result_independent_of_concurrent_requests_statement : Prop :=
+  batRequestStateWrites = [] ∧
+  ∀ (others : List Rat) (P : Rat) (invs : List PvInv) (oc : Nat → Outcome),
+    pvDistributeAmong others P invs oc = pvDistribute P invs oc
+
+theorem C15_result_independent_of_concurrent_requests :
+    C15_result_independent_of_concurrent_requests_statement := by
+  refine ⟨by decide, ?_⟩
+  intro others P invs oc
+  have hc : pvRequestStateWrites.contains "_target_power" = false := by decide
+  have hsh : sharedAfter pvRequestStateWrites P others = { target := pvTargetInit } := by
+    unfold sharedAfter
+    rw [hc]
+    rfl
+  unfold pvDistributeAmong pvDistribute
+  rw [hsh]
+  rfl
+
 /-! ## Non-vacuity: concrete cases (also the shapes the harness compares against the real managers) -/
 
 /-- Two inverters (one with two batteries), the second call times out: 100 W requested, 10 W excess. -/
@@ -359,3 +385,8 @@ example : pvDistribute (-2000) [⟨1, -100⟩, ⟨2, -1000⟩] (fun _ => .ok) =
     some ([(1, -100), (2, -1000)],
       some { partialFailure := false, succeededPower := -1100, succeeded := [1, 2],
              failedPower := 0, failed := [], excess := -900 }) := by decide +kernel
+
+/-- Concurrency, non-vacuity: −120 W for inverter 1 while requests for −600 W and +50 W are in flight — the
+result accounts for −120 W. -/
+example : pvDistributeAmong [-600, 50] (-120) [⟨1, -1200⟩] (fun _ => .ok) =
+    some ([(1, -120)], some ⟨false, -120, [1], 0, [], 0⟩) := by decide +kernel
